@@ -212,7 +212,7 @@ def gen_text_mutants(repo):
         ("datapath.py", "spec = dict(spec)  # arguments are popped below; leave the caller's spec unchanged", "pass", {"C16"}, "part-parser-consumes-caller-spec", None),
         ("datapath.py", "if not isinstance(spec, dict) or not spec:", "if not isinstance(spec, dict):", {"C19"}, "empty-mapping-not-rejected", None),
         ("datapath.py", "and isinstance(part.condition, cnds.Key)", "and part.condition.is_key_like", {"C12"}, "simplify-guard-weakened", None),
-        ("datapath.py", "return DataPath(*self.parts, *other.parts)", "obj = copy.copy(self)\n            obj.parts = self.parts + other.parts\n            return obj", {"C18", "C04"}, "truediv-keeps-stale-state", None),
+        ("datapath.py", "            return DataPath(\n                *self.parts,\n                *other.parts,\n                datum_type=other.DATUM_TYPE,\n                multi_type=other.MULTI_TYPE,\n            )", "            obj = copy.copy(self)\n            obj.parts = self.parts + other.parts\n            return obj", {"C18", "C04"}, "truediv-keeps-stale-state", None),
         ("schema.py", "new_rule = Rule(", "rule.path = root_path / rule.path\n            new_rule = Rule(", {"C18"}, "add-schema-rebinds-added-rule", None),
         ("schema.py", "items[path_i_str].get(\"required\", False)\n                        or key_cnd.callable.name == \"required_keys\"", "key_cnd.callable.name == \"required_keys\"", {"C20"}, "required-overwritten", None),
         ("rules.py", "doc = copy.deepcopy(spec.get(\"doc\"))", "doc = spec.get(\"doc\")", {"C16"}, "doc-normalised-in-place", None),
@@ -235,6 +235,18 @@ def gen_text_mutants(repo):
         ("schema.py", "out = [i.to_json_like() for i in self.rules]", "out = [i.to_json_like() for i in self.rules[:-1]]", {"C13"}, "schema-drops-last-rule", None),
         ("rules.py", "cast_to_types = {(k[0], v): k[1] for k, v in CAST_LOOKUP.items()}", "cast_to_types = {(k[0], v): k[0] for k, v in CAST_LOOKUP.items()}", {"C13", "C15"}, "cast-written-as-source-type", None),
         ("conditions.py", "pathlib.Path: \"path\",", "pathlib.Path: \"str\",", {"C11"}, "inverse-type-table-broken", None),
+        # after F26-F30
+        ("datapath.py", "                datum_type=other.DATUM_TYPE,\n                multi_type=other.MULTI_TYPE,\n", "", {"C18"}, "truediv-drops-modifiers", None),
+        ("datapath.py", "                and isinstance(part.condition.callable.kwargs[\"value\"], (str, float))\n", "", {"C12"}, "simplify-emits-int-key-of-map-part", None),
+        ("datapath.py", "                and (\n                    part.map_condition.callable.kwargs[\"value\"]\n                    == part.list_condition.callable.kwargs[\"value\"]\n                )\n", "", {"C12"}, "simplify-ignores-key-index-mismatch", None),
+        ("conditions.py", "                except NotADataPathSpec:\n                    # Check values for DataPath specs:", "                except Exception:\n                    # Check values for DataPath specs:", {"C19"}, "probe-swallows-malformed-paths", None),
+        ("conditions.py", "                    OverflowError,  # e.g. `\"%c\" % 1114112` (a string datum makes `%` a format)\n", "", {"C01", "C07"}, "overflow-from-format-uncaught", None),
+        ("rules.py", "            if not isinstance(descriptions, list):", "            if False:", {"C19"}, "doc-description-mapping-accepted", None),
+        ("data.py", "self.callable_false = [not i for i in self.result]", "self.callable_false = [any((i, j)) for i, j in zip(fd1.callable_false, fd2.callable_false)]", {"C05"}, "combination-reason-row-from-children", None),
+        ("rules.py", "        if \"shared_data\" in kwargs:\n            return out, kwargs[\"shared_data\"]", "        out = {k: v for k, v in out.items() if v}\n        if \"shared_data\" in kwargs:\n            return out, kwargs[\"shared_data\"]", {"C13"}, "rule-writer-drops-falsy-entries", "Rule.to_json_like"),
+        ("rules.py", "            if path_exists:\n                for datum, datum_path in sub_data:", "            if True:\n                for datum, datum_path in sub_data or []:", {"C07", "C15"}, "cast-loop-unguarded", None),
+        ("schema.py", "path_str = tuple(str(i) for i in rule.path.parts)  # use as a dict key", "path_str = tuple(str(i) for i in path_simple)  # use as a dict key", {"C20"}, "node-identity-from-simplified-path", None),
+        ("conditions.py", "    MalformedDataPathSpec,\n", "    MalformedDataPathSpec,\n    NotADataPathSpec as _unused_alias,\n", set(), "import-alias-added", "neutral"),
     ]
     for e in edits:
         mod, old, new, props, label, extra = e
